@@ -74,4 +74,10 @@ META["C10"] = {
     "technique": "property-based testing (rapid) with recording signer/verifier vs reference Countersign_structure; differential + metamorphic binding verdicts; enumerated refusal table",
 }
 
+META["C11"] = {
+    "text": "Exhaustive enumeration of the finite combination table (bad-signature subsets x verifier count x verifier order x origin, n up to 5 / 6; signer counts and failing positions on the sign side) against an independent per-slot reference verdict and the positional model, plus property-based random multi-signer messages. Enumeration is right because an index mix-up, early return or off-by-one shows only at specific (n, subset, position) combinations, all of which are small enough to list.",
+    "note": TRUST,
+    "technique": "exhaustive table enumeration + property-based testing (rapid); oracle: positional model cross-checked with an independent reference verifier",
+}
+
 NOT_APPLICABLE = {}
